@@ -1155,7 +1155,17 @@ class C18(core.Check):
         gap = min(r["gap"] for r in results)
         for r in results:
             if "out" not in r:
-                if r["err"] not in ("DegenerateGeometryError", "IndexError"):
+                if r["err"] == "IndexError":  # the documented rejection is DegenerateGeometryError (repair 70219c0)
+                    out.append(
+                        {
+                            "site": site + "bare-IndexError-instead-of-DegenerateGeometryError",
+                            "what": f"numbering {r['num']}: a view the re-orienter cannot sort is rejected with {r['err']}",
+                            "observed": r["err"],
+                            "expected": "DegenerateGeometryError",
+                        }
+                    )
+                    break
+                if r["err"] != "DegenerateGeometryError":
                     out.append({"site": site + "unexpected-exception", "what": f"numbering {r['num']}: {r['err']}"})
                     break
                 if clear:
